@@ -593,6 +593,7 @@ def run(ctx):
     _c03_micro.run_micro(ctx, quick)       # ctx.coq_properties("Properties/Properties_C03_micro.v") + Syncvar/MicroAll.v replayed on the real
                                            # syncvar.c with a targeted baton, see _c03_micro.py
     # ---- end of micro-step tier (extension B) ----
+    from . import _link; _link.run_link(ctx, quick, "syncvar")    # extension R: Syncvar/Model runs are accepted histories (Properties_C03_link.v + executed cross-check)
     broken = bool(mismatches) or not pr["ok"]
     if not broken and not oracle_fail:
         return
